@@ -41,6 +41,12 @@ impl PreprocessedText {
         let base = self.text.len();
         self.text.push_str(s);
 
+        // An empty segment maps no byte, and its zero-width key would compare equal to
+        // the next segment and keep it from being recorded.
+        if s.is_empty() {
+            return;
+        }
+
         let origin = if let Some((origin_path, origin_range)) = origin {
             let origin_path = PathBuf::from(origin_path.as_ref());
             Some((origin_path, origin_range))
